@@ -470,7 +470,11 @@ class FnCtx:
     def gref(s, name, t):
         if name in s.m.aliases: name = s.m.aliases[name]
         s.tr.note_global_use(name)
-        return V('((%s)&%s)' % (s.em.ctype(t), gname(name)), t, gbase=(name, []))
+        v = V('((%s)&%s)' % (s.em.ctype(t), gname(name)), t, gbase=(name, []))
+        g = s.m.globals.get(name)
+        if g is not None and isinstance(t, PtrT) and t.to.key() == g[0].key() and name not in s.tr.bigtabs:
+            v.glv = gname(name)
+        return v
 
     def constexpr(s, p):
         op = p.next()[1]
@@ -505,28 +509,37 @@ class FnCtx:
         raise SyntaxError('constexpr ' + op)
 
     def gep(s, bt, base, idx):
+        """address computation as '&(lvalue)': the lvalue is plain member/element syntax (g.f0.f5.a[i] or p->f0.a[i]) so that CBMC sees typed,
+        field-sensitive accesses when a load/store is emitted on it"""
         em = s.em
         cur = bt
-        e = base.c
         i0 = idx[0]
-        if i0.const != 0:
-            e = '(%s + %s)' % (e, s.sidx(i0))
         gb = None
         if base.gbase is not None and i0.const == 0:
             gb = (base.gbase[0], list(base.gbase[1]))
+        if len(idx) == 1:
+            e = base.c if i0.const == 0 else '(%s + %s)' % (base.c, s.sidx(i0))
+            return V(e, PtrT(cur), gbase=gb)
+        glv = getattr(base, 'glv', None)
+        if glv is not None and i0.const == 0: lv = glv
+        elif getattr(base, 'lv', None) is not None and i0.const == 0: lv = base.lv
+        elif i0.const == 0: lv = '(*%s)' % base.c
+        else: lv = '(%s)[%s]' % (base.c, s.sidx(i0))
         for ix in idx[1:]:
             rt = em.resolve(cur)
             if isinstance(rt, StructT):
                 k = ix.const
                 if k is None: raise NotImplementedError('variable struct index')
-                e = '(&(%s)->f%d)' % (e, k); cur = rt.fields[k]
+                lv = '%s.f%d' % (lv, k); cur = rt.fields[k]
                 if gb: gb[1].append(('f', k))
             elif isinstance(rt, ArrT):
-                e = '(&(%s)->a[%s])' % (e, s.sidx(ix)); cur = rt.el
+                lv = '%s.a[%s]' % (lv, s.sidx(ix)); cur = rt.el
                 if gb: gb[1].append(('a', ix))
             else:
                 raise NotImplementedError('gep into %r' % rt)
-        return V(e, PtrT(cur), gbase=gb)
+        v = V('(&%s)' % lv, PtrT(cur), gbase=gb)
+        v.lv = lv
+        return v
 
     def sidx(s, ix):
         rt = s.em.resolve(ix.t)
@@ -625,6 +638,64 @@ class Translator:
         s.find_bigtabs()
 
     def note_global_use(s, name): s.used_globals.add(name)
+
+    # ---------------------------------------------------------------- devirtualisation by vtable slot
+    def vtable_slots(s):
+        """slot index -> set of function names found at that slot (address point + slot) of any (sub-)vtable in the module"""
+        if hasattr(s, '_vslots'): return s._vslots
+        slots = {}
+        for n, (ty, init, const) in s.m.globals.items():
+            if not n.startswith('@_ZTV') or init is None or n.startswith('@_ZTVN10__cxxabiv1'): continue
+            # initializer: { [k x i8*] [i8* ..., ...], [j x i8*] [...] }: split into arrays by bracket depth
+            depth = 0; cur = None; arrays = []
+            toks = list(init); i = 0
+            while i < len(toks):
+                k, v = toks[i]
+                if v == '[':
+                    depth += 1
+                    # '[' N 'x' type ']' is a type, '[' followed by element list is data: data arrays start with a type token then value
+                    if depth == 1 and i + 2 < len(toks) and toks[i + 2][1] == 'x': pass
+                    elif depth == 1: cur = []; arrays.append(cur)
+                elif v == ']':
+                    if depth == 1: cur = None
+                    depth -= 1
+                elif cur is not None and depth >= 1:
+                    cur.append((k, v))
+                i += 1
+            for arr in arrays:
+                # elements separated by ',' at paren depth 0
+                elems = []; e = []; pd = 0
+                for k, v in arr:
+                    if v == '(': pd += 1
+                    elif v == ')': pd -= 1
+                    if v == ',' and pd == 0: elems.append(e); e = []
+                    else: e.append((k, v))
+                if e: elems.append(e)
+                for idx, e in enumerate(elems):
+                    fns = [v for k, v in e if k in ('name', 'qname') and v[0] == '@' and (v in s.m.funcs or v in s.m.decls)]
+                    if fns and idx >= 2: slots.setdefault(idx - 2, set()).add(fns[0])
+        s._vslots = slots
+        return slots
+
+    def virtual_slot(s, callee):
+        """if %callee = load (gep (load vptr), K) return K"""
+        d = s.defs.get(callee)
+        if not d or d[2][1] != 'load': return None
+        names = [v for k, v in d[3:] if k in ('name', 'qname') and v[0] == '%' and v not in s.m.types]
+        if not names: return None
+        src = names[-1]
+        g = s.defs.get(src)
+        if not g: return None
+        if g[2][1] == 'getelementptr':
+            ints = [v for k, v in g[3:] if k == 'int']
+            base = [v for k, v in g[3:] if k in ('name', 'qname') and v[0] == '%' and v not in s.m.types]
+            if len(ints) != 1 or len(base) != 1: return None
+            vt = s.defs.get(base[0])
+            if not vt or vt[2][1] != 'load': return None
+            return int(ints[0])
+        if g[2][1] == 'load':       # slot 0: the function pointer is loaded straight from the vtable pointer
+            return 0
+        return None
 
     # ---------------------------------------------------------------- big constant tables
     def find_bigtabs(s):
@@ -901,7 +972,7 @@ class Translator:
                 for k, v in tk[st:]:
                     if k in ('name', 'qname') and v[0] == '%': uses[v] = uses.get(v, 0) + 1
                 if st == 2: defs[tk[0][1]] = tk
-        s.fp_skip = set(); s.fp_peep = {}
+        s.fp_skip = set(); s.fp_peep = {}; s.defs = defs
         for name, tk in defs.items():
             if tk[2][1] != 'fptoui' or tk[3][1] != 'double' or tk[4][0] not in ('name', 'qname'): continue
             m = defs.get(tk[4][1])
@@ -913,7 +984,7 @@ class Translator:
             if not cst or not u or u[2][1] != 'uitofp' or uses.get(ops[0][1], 0) != 1: continue
             s.fp_skip.add(tk[4][1]); s.fp_skip.add(ops[0][1])
             s.fp_peep[name] = (u[3:], cst)
-        s.lp_selectors = {}
+        s.lp_selectors = {}; s.gepmap = {}; s.geplv = {}
         for lab, ins in blocks:
             code.append('L_%s: ;' % cid('%' + lab))
             s.curlab = lab
@@ -953,6 +1024,29 @@ class Translator:
         res = [[lab, bymap[lab]] for lab in order]
         res += [[lab, ins] for lab, ins in blocks if lab not in seen]   # unreachable blocks keep their place at the end
         return res
+
+    def expand_gep(s, expr, depth=0):
+        if depth > 6: return expr
+        def rep_lv(m):
+            e = s.geplv.get(m.group(1))
+            return e if e is not None else m.group(0)
+        expr = re.sub(r'\(\*(v_\w+)\)', rep_lv, expr)
+        def rep(m):
+            e = s.gepmap.get(m.group(0))
+            return '(%s)' % e if e is not None else m.group(0)
+        new = re.sub(r'\bv_\w+\b', rep, expr)
+        return new
+
+    def lvalue(s, a):
+        """C lvalue for the address operand of a load/store"""
+        if getattr(a, 'lv', None) is not None: return s.expand_gep(a.lv)        # constant-expression GEP used directly as operand
+        if a.c in s.geplv: return s.geplv[a.c]
+        return '*%s' % s.addr(a.c)
+
+    def addr(s, c):
+        """address operand of a load/store: the GEP expression itself when the operand is a GEP result of this function"""
+        e = s.gepmap.get(c)
+        return '(%s)' % e if e is not None else c
 
     def zero(s, t):
         rt = s.em.resolve(t)
@@ -1102,16 +1196,20 @@ class Translator:
             if s.bigtabs:
                 # remember the shape for table-load rewriting
                 s.lp_selectors[('gep', dst)] = (bt, base, idx, v)
+            # remember the address expression: loads/stores through this SSA value are emitted on the expression itself, so that CBMC sees
+            # a typed member/element access (a store through a pointer temporary with symbolic index is a whole-object byte update)
+            s.gepmap[ctx.lname(dst)] = s.expand_gep(v.c)
+            if getattr(v, 'lv', None) is not None: s.geplv[ctx.lname(dst)] = s.expand_gep(v.lv)
             return s.define(dst, v.t, v.c)
         if op == 'load':
             p.accept('atomic'); p.accept('volatile'); t = p.type(); p.expect(','); a = ctx.tvalue(p)
             if s.bigtabs:
                 r = s.tab_load(t, a)
                 if r is not None: return s.define(dst, t, r)
-            return s.define(dst, t, '*%s' % a.c)
+            return s.define(dst, t, s.lvalue(a))
         if op == 'store':
             p.accept('atomic'); p.accept('volatile'); v = ctx.tvalue(p); p.expect(','); a = ctx.tvalue(p)
-            return ['*%s = %s;' % (a.c, v.c)]
+            return ['%s = %s;' % (s.lvalue(a), v.c)]
         if op == 'fence': return []
         if op == 'atomicrmw':
             p.accept('volatile'); k = p.next()[1]; a = ctx.tvalue(p); p.expect(','); v = ctx.tvalue(p)
@@ -1295,6 +1393,13 @@ class Translator:
             else:
                 fty = ft or FuncT(rt, [a.t for a in args], False)
                 fn = '((%s*)%s)' % (em.fntype(fty), ctx.lname(callee))
+                slot = s.virtual_slot(callee)
+                if slot is not None:
+                    key = s.loose_key(fty)
+                    cands = sorted(c for c in s.vtable_slots().get(slot, ()) if s.loose_key(s.m.funcs[c].ftype if c in s.m.funcs else s.m.decls[c]) == key)
+                    if cands:
+                        s.devirt = getattr(s, 'devirt', 0) + 1
+                        return s.devirt_call(cands, ctx.lname(callee), args, dst, rt, op, normal, unwind)
             if name == '@__CPROVER_assert':
                 lit = s.strlit(args[1])
                 s.asserts.append(lit)
@@ -1306,6 +1411,7 @@ class Translator:
                 out += s.define(dst, rt, '__vx_dynamic_cast(%s)' % ', '.join(a.c for a in args))
             elif name in ('@memcpy', '@memmove', '@memset') and len(args) == 3:
                 # zero-length calls are skipped: a null / one-past pointer with length 0 is not reported (C library precondition only)
+                if args[2].const is None: fn = '__vx_' + fn    # symbolic length: explicit byte loop (see cxxrt.h)
                 call = '%s((void*)%s, %s%s, %s)' % (fn, args[0].c, '' if name == '@memset' else '(const void*)', args[1].c, args[2].c)
                 out.append('if (%s) %s;' % (args[2].c, call))
                 if dst is not None: out += s.define(dst, rt, '(%s)%s' % (em.ctype(rt), args[0].c))
@@ -1323,6 +1429,34 @@ class Translator:
                 out.append('if (__vx_pending) return %s;' % s.retzero)
         return out
 
+    def loose_key(s, ft):
+        """signature shape with all pointer types identified ('this' is the derived class in the vtable entry, a base at the call site)"""
+        def k(t):
+            rt = s.em.resolve(t)
+            return 'p' if isinstance(rt, PtrT) else rt.key()
+        return (k(ft.ret), tuple(k(p) for p in ft.params), ft.varargs)
+
+    def devirt_call(s, cands, fp, args, dst, rt, op, normal, unwind):
+        """virtual call: explicit dispatch over the functions found at this vtable slot with exactly this signature"""
+        em = s.em; out = []
+        void = isinstance(em.resolve(rt), VoidT)
+        if dst is not None and not void:
+            s.ctx.vals[dst] = rt; s.decls.append('%s %s;' % (em.ctype(rt), s.ctx.lname(dst)))
+        chain = []
+        for c in cands:
+            cft = s.m.funcs[c].ftype if c in s.m.funcs else s.m.decls[c]
+            al = ', '.join(('(%s)%s' % (em.ctype(pt), a.c)) if isinstance(em.resolve(pt), PtrT) else a.c for a, pt in zip(args, cft.params))
+            callx = '%s(%s)' % (gname(c), al)
+            if dst is not None and not void:
+                callx = '%s = %s%s' % (s.ctx.lname(dst), ('(%s)' % em.ctype(rt)) if isinstance(em.resolve(rt), PtrT) else '', callx)
+            chain.append('if ((void*)%s == (void*)&%s) { %s; }' % (fp, gname(c), callx))
+        out.append(' else '.join(chain) + ' else { __VX_ASSERT(0, "virtual call target is not a vtable entry of this slot and signature in the closure"); __CPROVER_assume(0); }')
+        if op == 'invoke':
+            out.append('if (__vx_pending) { %s } else { %s }' % (s.goto(unwind), s.goto(normal)))
+        elif not all(s.nounwind(c) for c in cands):
+            out.append('if (__vx_pending) return %s;' % s.retzero)
+        return out
+
     def strlit(s, v):
         if v.gbase:
             g = s.m.globals.get(v.gbase[0])
@@ -1337,9 +1471,10 @@ class Translator:
             return []
         if base.startswith(('memcpy.', 'memmove.')):
             fn = 'memmove' if base.startswith('memmove') else 'memcpy'
+            if args[2].const is None: fn = '__vx_' + fn      # symbolic length: explicit byte loop (see cxxrt.h)
             return ['if (%s) %s((void*)%s, (const void*)%s, %s);' % (args[2].c, fn, args[0].c, args[1].c, args[2].c)]
         if base.startswith('memset.'):
-            return ['if (%s) memset((void*)%s, %s, %s);' % (args[2].c, args[0].c, args[1].c, args[2].c)]
+            return ['if (%s) %s((void*)%s, %s, %s);' % (args[2].c, 'memset' if args[2].const is not None else '__vx_memset', args[0].c, args[1].c, args[2].c)]
         if base == 'assume': return ['__CPROVER_assume(%s);' % args[0].c]
         if base.startswith('expect.'): return s.define(dst, rt, args[0].c)
         if base in ('trap', 'debugtrap'): return ['__VX_ASSERT(0, "llvm.trap executed"); __CPROVER_assume(0);']
